@@ -1,5 +1,6 @@
 -- root of the library: every property's theorems and every driver module
 import RpmVerif.Props.C01
+import RpmVerif.Props.C05
 import RpmVerif.Props.C13
 import RpmVerif.Props.C15
 import RpmVerif.Props.C16
@@ -7,6 +8,7 @@ import RpmVerif.Props.C18
 import RpmVerif.Props.C19
 import RpmVerif.Props.C20
 import RpmVerif.Driver.C01
+import RpmVerif.Driver.C05
 import RpmVerif.Driver.C13
 import RpmVerif.Driver.C15
 import RpmVerif.Driver.C16
